@@ -329,9 +329,14 @@ static Token *read_char_literal(char *start, char *quote, Type *ty) {
   else
     c = decode_utf8(&p, p);
 
-  char *end = strchr(p, '\'');
-  if (!end)
-    error_at(p, "unclosed char literal");
+  // Find the closing quote; an escaped quote ('a\'') is not it.
+  char *end = p;
+  for (; *end != '\''; end++) {
+    if (*end == '\0')
+      error_at(p, "unclosed char literal");
+    if (*end == '\\' && end[1])
+      end++;
+  }
 
   Token *tok = new_token(TK_NUM, start, end + 1);
   tok->val = c;
